@@ -10,11 +10,11 @@ PROP = 'C13'
 THEOREMS = ['model_eq_formula', 'frame_perm_invariant', 'sym_ge_dir', 'sym_swap', 'sim_01',
             'refine_dir_one', 'identical_is_one']
 CONFIGS = [dict(jit=True), dict(jit=False)]
-CONFIGS_THOROUGH = [dict(jit=True), dict(jit=False), dict(jit=True, threads=1), dict(jit=True, threads=3)]
+CONFIGS_THOROUGH = [dict(jit=True), dict(jit=False), dict(jit=True, threads=3)]
 RULE = ('random pairs of labelings of the same frames (2..12 states each, arbitrary integer labels, '
         'split into trajectories differently on both sides, N from 2 to 3000; thorough also N = 1e5) '
         'and both methods, plus a malformed stream (unequal frame counts, single-state labelings, '
-        'unknown method); thorough adds all pairs of labelings of <= 6 frames over 3x3 states. '
+        'unknown method); thorough adds all pairs of labelings of <= 5 frames over 3x3 states. '
         'Compared: |value - exact rational| <= 1e-10, error kinds. Non-trivial: neither labeling '
         'refines the other.')
 TRUSTED = ['float summation order of the prange reduction (bounded by the 1e-10 tolerance)']
@@ -72,7 +72,7 @@ def gen(rng, tier):
         yield {'t1': _split(rng, f1), 't2': _split(rng, f2), 'method': method, 'mal': mal,
                'alpha': a1 + '/' + a2}
     if tier == 'thorough':
-        for N in range(2, 7):
+        for N in range(2, 6):
             for f1 in itertools.product([0, 1, 2], repeat=N):
                 if len(set(f1)) < 2:
                     continue
